@@ -119,6 +119,19 @@ PROPS = {
         "level_note": "trusted: Series.tla (classical allotment table transcribed from the month list, not from the packed digit string), TLC, harness logging",
         "technique": "TLA+ series sub-machines checked with TLC + trace validation of day walks",
     },
+    "C17": {
+        "title": "daily and hourly almanac cycles obey their defining recurrences",
+        "mc": {"quick": [{"module": "MC_Almanac", "cfg": "MC_Almanac.cfg", "workers": 4}]},
+        "rule": "civil day walks (catalogue + 30 seeded windows + six whole leap-month years + 40 seeded year turns; thorough every date 0001..9998) logging officer, path spirit and mansion by two routes, six-day star, day nine star by two routes, phase, minor Ren; "
+                "13 hour slots (incl. 0:xx and 23:xx) of seeded days, a third of them in the last ten days of December; year stars of years -1..9999 and month stars of every (year, month). "
+                "Non-trivial: leap-month days, lunar month starts, Jian days, star turning points, 23:00 slots, late-December hours",
+        "exhaustive": {"quick": False, "thorough": True},
+        "assumptions": ["month pillar and lunar date of a day are the implementation's (C08, C02); solstice days are those of the term objects (C06)",
+                        "at 23:xx the lunar hour view keeps its own lunar day for the hour star (pinned by the library's own test star::nine::test11) while the sexagenary view takes the next day's pillar; each is judged with the day it declares"],
+        "level_text": "TLC checks the recurrence machine with free month boundaries (MC_Almanac: closed forms = recurrences for officer, path spirit, mansion/weekday, six-day star) and validates the real code on every walked day against the closed forms and the Tick clauses (+1 per day, officer repeated on a Jie day, six-day star restart at month number - 1), on hour slots, and on every year and month for the nine-star rules re-derived from the solstice days; thorough covers every date 0001..9998",
+        "level_note": "trusted: Almanac.tla (rules stated from the classical mnemonics), TLC, harness logging",
+        "technique": "TLA+ recurrence model checked with TLC + trace validation of day walks, hour slots, years and months",
+    },
     "C18": {
         "title": "almanac lookup tables are total and well-formed for every pillar pair",
         "mc": {"quick": [{"module": "MC_AlmanacTables", "cfg": "MC_AlmanacTables.cfg", "workers": 2}]},
